@@ -4,6 +4,7 @@ import (
 	"fmt"
 	"go/token"
 	"go/types"
+	"sort"
 	"strings"
 
 	"golang.org/x/tools/go/ssa"
@@ -334,6 +335,38 @@ func propC18(w *World, r *Report) {
 			r.Unknown("W2", "header read of the connection handler", w.Pos(hc.Pos()), "no call to headers.ReadHeaderInfo found")
 		} else {
 			checkSingleBufferedReader(w, r, e, "W2", "reader: the header and every frame are read through the same bufio.Reader", []*ssa.Function{hc}, hdrCall, fills, unwrapIface)
+			// ... and nothing else takes bytes off that reader: between frames the stream is consumed only by the
+			// full-frame read (a Peek/Discard, a ReadByte or a second header read would swallow frame bytes and shift
+			// every later frame)
+			if rd, ok := unwrapIface(hdrCall.Call.Args[hdrArgOf(hdrCall)]).(*ssa.Call); ok {
+				var extra []string
+				var scan func(v ssa.Value)
+				scan = func(v ssa.Value) {
+					if v.Referrers() == nil {
+						return
+					}
+					for _, rf := range *v.Referrers() {
+						switch x := rf.(type) {
+						case *ssa.MakeInterface:
+							scan(x)
+						case *ssa.ChangeInterface:
+							scan(x)
+						case *ssa.DebugRef:
+						case *ssa.Call:
+							cn := calleeName(x)
+							if x == hdrCall || cn == "io.ReadFull" || cn == "io.ReadAtLeast" {
+								continue
+							}
+							extra = append(extra, cn+" at "+w.InstrPos(x))
+						default:
+							extra = append(extra, fmt.Sprintf("%T at %s", x, w.InstrPos(rf)))
+						}
+					}
+				}
+				scan(rd)
+				sort.Strings(extra)
+				r.Check(len(extra) == 0, "W2", "reader: bytes are taken off the buffered reader only by the header read and the full-frame read", w.InstrPos(rd), strings.Join(extra, " ; "))
+			}
 		}
 	}
 	// W4: close on every exit after the goroutine started
@@ -349,6 +382,29 @@ func propC18(w *World, r *Report) {
 		r.Check(ok, "W4", "reader: the write channel is closed on this exit after the writer was started", w.InstrPos(ret), "")
 	}
 	r.Check(len(closed) >= 1, "G4", "reader has an exit after the goroutine start", "-", fmt.Sprint(len(closed)))
+	// ... once: no block closes the write channel twice and no close is followed by another on the way to the exit (a
+	// second close panics while the writer is still draining the queue)
+	{
+		var closes []*ssa.Call
+		for _, b := range hc.Blocks {
+			for _, in := range b.Instrs {
+				if c, ok := in.(*ssa.Call); ok {
+					if bi, ok := c.Call.Value.(*ssa.Builtin); ok && bi.Name() == "close" && chanOf(c.Call.Args[0]) == write {
+						closes = append(closes, c)
+					}
+				}
+			}
+		}
+		twice := false
+		for i, c1 := range closes {
+			for j, c2 := range closes {
+				if i != j && (c1.Block() == c2.Block() && i < j || c1.Block() != c2.Block() && reaches(c1.Block(), c2.Block())) {
+					twice = true
+				}
+			}
+		}
+		r.Check(!twice, "W4", "reader: the write channel is closed at most once on any path", w.Pos(hc.Pos()), fmt.Sprintf("%d close sites", len(closes)))
+	}
 	// the pool channel stays open: the writer hands a buffer back after every frame it writes, also the frames still
 	// queued when the connection ends; a send on a closed channel panics and the queued frames are never flushed
 	{
